@@ -81,6 +81,7 @@ type Plan struct {
 	Relay   *Relay            `json:"relay,omitempty"`   // another BitXHub registered as relay chain
 	Relay2  *Relay            `json:"relay2,omitempty"`  // a second one, with its own validators
 	Fabric  string            `json:"fabric,omitempty"`  // a chain validated by the simplified Fabric rule (trust root: endorser c0)
+	Roles   bool              `json:"roles,omitempty"`   // role / node lifecycle scenario: observe roles, audit nodes (C16 lifecycle, C14 grant)
 }
 
 func (p *Plan) allChains() []string {
@@ -634,7 +635,35 @@ func (r *runner) observe(n *core.Node, res *core.BlockResult) map[string]interfa
 		}
 		rules = append(rules, m{"chain": c, "bound": bound, "unbinding": unbinding, "cert": core.EndorserLabelOf(n.AppchainRawTrustRoot(c))})
 	}
-	out := m{"counters": ctr, "status": st, "groups": groups, "tmeta": tm, "mmeta": mmeta, "svc": sv, "chains": ch, "relay": relay, "rules": rules}
+	rlist, nlist := []m{}, []m{}
+	if r.plan.Roles {
+		accts := append([]*core.Account{}, n.Admins()...)
+		for _, nm := range []string{"newadmin1", "newadmin2", "aud1", "aud2"} {
+			accts = append(accts, n.Account(nm))
+		}
+		for _, a := range accts {
+			rc := n.Query(constant.RoleContractAddr.Address(), "GetRoleInfoById", pb.String(a.Addr.String()))
+			ro := contracts.Role{}
+			stt, typ := "", ""
+			if rc != nil && rc.Status == pb.Receipt_SUCCESS && json.Unmarshal(rc.Ret, &ro) == nil {
+				stt, typ = string(ro.Status), string(ro.RoleType)
+			}
+			rlist = append(rlist, m{"a": a.Addr.String(), "st": stt, "typ": typ})
+		}
+		for _, nm := range []string{"nvp1", "nvp2"} {
+			rc := n.Query(constant.NodeManagerContractAddr.Address(), "GetNode", pb.String(n.Account(nm).Addr.String()))
+			var nd struct {
+				Status string `json:"status"`
+			}
+			stt := ""
+			if rc != nil && rc.Status == pb.Receipt_SUCCESS && json.Unmarshal(rc.Ret, &nd) == nil {
+				stt = nd.Status
+			}
+			nlist = append(nlist, m{"a": n.Account(nm).Addr.String(), "st": stt})
+		}
+	}
+	out := m{"counters": ctr, "status": st, "groups": groups, "tmeta": tm, "mmeta": mmeta, "svc": sv, "chains": ch, "relay": relay, "rules": rules,
+		"rlist": rlist, "nlist": nlist}
 	if r.govMode {
 		props := []m{}
 		for _, pid := range r.pids {
@@ -879,7 +908,7 @@ func (r *runner) run(dir string) {
 		p.Unord = []string{}
 	}
 	bal0, _, _ := lockstep.Balances(a)
-	init := map[string]interface{}{"ev": "Init", "name": p.Name, "admins": admins, "nadmins": 4, "h": int(a.Height()), "bal": bal0,
+	init := map[string]interface{}{"ev": "Init", "name": p.Name, "admins": admins, "nadmins": 4, "h": int(a.Height()), "bal": bal0, "grant": 100000000,
 		"setupEqual": pair.SetupEqual(), "bxh": a.BxhID(), "svcs": svcs, "unordered": p.Unord, "audit": p.Audit,
 		"replicas": len(r.reps), "genesisRestart": genesisRestart}
 	for k, v := range r.observe(a, nil) {
@@ -930,7 +959,7 @@ func (r *runner) run(dir string) {
 					args = append(args, pb.String(x))
 				}
 			}
-			cname := map[string]string{"Service": "service", "Appchain": "appchain", "Role": "role", "Strategy": "strategy"}
+			cname := map[string]string{"Service": "service", "Appchain": "appchain", "Role": "role", "Strategy": "strategy", "Node": "node"}
 			c := "service"
 			for suf, cn := range cname {
 				if strings.Contains(st.M, suf) {
@@ -1538,6 +1567,76 @@ func genRules(rng *rand.Rand, name string) *Plan {
 	return p
 }
 
+
+// role / node lifecycle scenarios (C16 lifecycle half for roles and nodes, C14 grant clause): audit nodes are
+// registered, updated, logged out; audit admins are registered bound to a node, paused when their node goes, bound to
+// another node; a governance admin is registered, frozen, activated, logged out; proposals are approved or rejected,
+// and concluded in interleaved orders
+func genRoles(rng *rand.Rand, name string) *Plan {
+	p := &Plan{Name: name, Seed: 1, Proof: "serial", Chains: []string{"chainA"}, NSvc: 1, Black: map[string]string{}, Audit: rng.Intn(2) == 0, GovMode: true, Roles: true}
+	np := 0
+	adm := func() string { return fmt.Sprintf("@admin%d", rng.Intn(4)) }
+	vote := func(pid int, approve bool) {
+		b := "approve"
+		if !approve {
+			b = "reject"
+		}
+		for i := 0; i < 4; i++ {
+			p.Steps = append(p.Steps, Step{Step: "vote", Pid: pid, By: fmt.Sprintf("@admin%d", i), Ballot: b})
+		}
+	}
+	var open []int
+	submit := func(m string, args ...string) {
+		p.Steps = append(p.Steps, Step{Step: "submit", M: m, By: adm(), Obj: "x", Args: args})
+		open = append(open, np)
+		np++
+	}
+	node := func() string { return []string{"@nvp1", "@nvp2"}[rng.Intn(2)] }
+	aud := func() string { return []string{"@aud1", "@aud2"}[rng.Intn(2)] }
+	// most scenarios start with a node and an audit admin bound to it
+	if rng.Intn(4) > 0 {
+		submit("RegisterNode", "@nvp1", "nvpNode", "", "u64:0", "node1", "chainA", "r")
+		vote(np-1, true)
+		open = open[:len(open)-1]
+		submit("RegisterRole", "@aud1", "auditAdmin", "@nvp1", "r")
+		if rng.Intn(3) > 0 {
+			vote(np-1, rng.Intn(5) > 0)
+			open = open[:len(open)-1]
+		}
+	}
+	nsteps := 8 + rng.Intn(10)
+	for i := 0; i < nsteps; i++ {
+		switch rng.Intn(14) {
+		case 0, 1:
+			submit("RegisterNode", node(), "nvpNode", "", "u64:0", fmt.Sprintf("node%d", rng.Intn(3)), "chainA", "r")
+		case 2, 3:
+			submit("RegisterRole", aud(), "auditAdmin", node(), "r")
+		case 4:
+			submit("RegisterRole", []string{"@newadmin1", "@newadmin2"}[rng.Intn(2)], "governanceAdmin", "", "r")
+		case 5:
+			submit("LogoutNode", node(), "r")
+		case 6:
+			submit("BindRole", aud(), node(), "r")
+		case 7:
+			submit("UpdateNode", node(), fmt.Sprintf("nn%d", rng.Intn(9)), "chainA", "r")
+		case 8:
+			submit([]string{"FreezeRole", "ActivateRole", "LogoutRole"}[rng.Intn(3)], []string{"@newadmin1", "@aud1", "@aud2", "@aud1", "@newadmin1", "@admin3"}[rng.Intn(6)], "r")
+		case 9:
+			p.Steps = append(p.Steps, Step{Step: "block", Txs: []Tx{{K: "transfer", From: "u1", Dst: "u2"}}})
+		default: // conclude one of the open proposals (not necessarily the oldest)
+			if len(open) > 0 {
+				j := rng.Intn(len(open))
+				vote(open[j], rng.Intn(4) > 0)
+				open = append(open[:j], open[j+1:]...)
+			}
+		}
+	}
+	for _, pid := range open {
+		vote(pid, rng.Intn(3) > 0)
+	}
+	return p
+}
+
 // timed scenarios: a request with timeout T, a receipt of every type arriving before, at and after H+T
 func genTimed(rng *rand.Rand, name string) *Plan {
 	p := &Plan{Name: name, Seed: 1, Proof: "serial", Chains: []string{"chainA", "chainB", "chainC"}, NSvc: 2, Black: map[string]string{}, Audit: rng.Intn(2) == 0}
@@ -1937,6 +2036,8 @@ func main() {
 					surfCache = lockstep.Surface()
 				}
 				plans = append(plans, genSurface(rng, fmt.Sprintf("surface-%d-%d", *seed, i), surfCache, *frac))
+			} else if *mode == "roles" {
+				plans = append(plans, genRoles(rng, fmt.Sprintf("roles-%d-%d", *seed, i)))
 			} else if *mode == "rules" {
 				plans = append(plans, genRules(rng, fmt.Sprintf("rules-%d-%d", *seed, i)))
 			} else if *mode == "xhub" {
